@@ -336,7 +336,7 @@ CONSISTENT = {(LEFT, RIGHT, False), (LEFT, LEFT, True), (RIGHT, LEFT, False), (R
 
 class GraphStepOracles(HashStepOracles):
     DOMAINS = dict(HashStepOracles.DOMAINS)
-    DOMAINS.update({"len_is_K": (False, True), "pal_first": (False, True), "link": LINKS, "next_len_is_K": (False, True)})
+    DOMAINS.update({"len_is_K": (False, True), "pal_first": (False, True), "pal_cur_end": (False, True), "link": LINKS, "next_len_is_K": (False, True)})
 
     def node_role(self, n):
         t = tags_of(n)
@@ -396,6 +396,11 @@ class GraphStepOracles(HashStepOracles):
             if "next" in t:
                 self.observe("pal-asked", ("next", frozenset(t)))
                 return mkbool(self.choose("pal_next", (False, True)))
+            if "cur" in t and ("term-kmer" in t or "last-kmer" in t):
+                # the end k-mer of the current node: the node's only k-mer when the node has length K, an independent fact otherwise
+                if self.choose("len_is_K", (False, True)):
+                    return mkbool(self.choose("pal_first", (False, True)))
+                return mkbool(self.choose("pal_cur_end", (False, True)))
             raise Undecided("palindrome test on %r" % (k,))
         if name in ("extend", "extend_left", "extend_right") and fn.get("trait") == "Kmer":
             k = recv(it, args[0])
